@@ -4,6 +4,7 @@ import (
 	"encoding/binary"
 	"encoding/json"
 	"fmt"
+	"net"
 	"os"
 	"path/filepath"
 	"sort"
@@ -81,7 +82,7 @@ type c03Env struct {
 	refused     map[int]bool
 	otherStream map[int]bool
 	undecided   int
-	occupied  bool // sequenced scenarios: an accepted input is attached right now
+	occupied    bool // sequenced scenarios: an accepted input is attached right now
 }
 
 func (e *c03Env) now() int64 { return int64(time.Since(e.t0)) }
@@ -865,9 +866,15 @@ func (e *c03Env) finish(all []*c03Actor) {
 func (e *c03Env) statCheck(holder *c03Actor, when string) {
 	var v struct {
 		Data struct {
-			Pub  struct{ SessionId string `json:"session_id"` } `json:"pub"`
-			Pull struct{ SessionId string `json:"session_id"` } `json:"pull"`
-			Subs []struct{ SessionId string `json:"session_id"` } `json:"subs"`
+			Pub struct {
+				SessionId string `json:"session_id"`
+			} `json:"pub"`
+			Pull struct {
+				SessionId string `json:"session_id"`
+			} `json:"pull"`
+			Subs []struct {
+				SessionId string `json:"session_id"`
+			} `json:"subs"`
 		} `json:"data"`
 	}
 	body := c03Stat(e)
@@ -1277,6 +1284,65 @@ func c03PullAlone(c *fw.Ctx, i int, pk string) {
 	e.finish(all)
 }
 
+// scenario 2c: start_rtp_pub on a port that is in use reports failure - and then there is no input:
+// the stat API lists none, and the next publisher is admitted.
+func c03RtpPubBusyPort(c *fw.Ctx, i int, tcp bool) {
+	e := c03Start(c, i)
+	if e == nil {
+		return
+	}
+	defer e.stop()
+	e.desc = fmt.Sprintf("start_rtp_pub on a busy port (tcp=%v), then a publisher", tcp)
+	c.Describe("%s", e.desc)
+	c.Cell("rtppub-busy-port/tcp=%v", tcp)
+	var port int
+	if tcp {
+		ln, err := net.Listen("tcp", "0.0.0.0:0")
+		if err != nil {
+			c.Inconclusive("listen: %v", err)
+			return
+		}
+		defer ln.Close()
+		port = ln.Addr().(*net.TCPAddr).Port
+	} else {
+		pc, err := net.ListenPacket("udp", "0.0.0.0:0")
+		if err != nil {
+			c.Inconclusive("listen: %v", err)
+			return
+		}
+		defer pc.Close()
+		port = pc.LocalAddr().(*net.UDPAddr).Port
+	}
+	b, _ := json.Marshal(map[string]interface{}{"stream_name": e.name, "port": port, "timeout_ms": 60000, "is_tcp_flag": map[bool]int{false: 0, true: 1}[tcp]})
+	_, resp, err := srv.HttpPostJson(e.s.ApiAddr(), "/api/ctrl/start_rtp_pub", string(b), 3*time.Second)
+	if err != nil {
+		c.Inconclusive("start_rtp_pub: %v", err)
+		return
+	}
+	e.logf("start_rtp_pub port %d (in use) → %s", port, trunc(string(resp), 160))
+	var all []*c03Actor
+	c.Eval(1)
+	if strings.Contains(string(resp), `"error_code":0`) {
+		// the kernel let lal share the port (SO_REUSEPORT-style): not the case under test
+		c.Count("busy_port_was_granted", 1)
+		e.finish(all)
+		return
+	}
+	e.statCheck(nil, "after start_rtp_pub reported failure")
+	h := e.newActor("rtmp")
+	all = append(all, h)
+	h.acquire(false)
+	if h.decided && !h.accepted {
+		c.Violate("refused-while-free/rtmp", fmt.Sprintf("a publisher was refused after a start_rtp_pub call that had itself reported failure (nothing may be left attached)\n%s\n%s", e.desc, e.trace()), nil)
+	} else if h.accepted {
+		h.burst()
+		e.checkDelivered(h, all, "publisher after a failed start_rtp_pub")
+		e.statCheck(h, "publisher after a failed start_rtp_pub")
+		h.release("close")
+	}
+	e.finish(all)
+}
+
 // scenario 3: foreign subscribers come, go and are kicked; stale and foreign ids are kicked.
 func c03ForeignSubs(c *fw.Ctx, i int, hk string) {
 	e := c03Start(c, i)
@@ -1464,8 +1530,8 @@ func c03Race(c *fw.Ctx, i int) {
 
 func init() {
 	type sc struct {
-		kind   string
-		a, b   string
+		kind string
+		a, b string
 	}
 	var cat []sc
 	for _, h := range c03Kinds {
@@ -1479,6 +1545,7 @@ func init() {
 	for _, p := range []string{"rtmp", "rtsp"} {
 		cat = append(cat, sc{"pullalone", p, ""})
 	}
+	cat = append(cat, sc{"rtppub-busy", "udp", ""}, sc{"rtppub-busy", "tcp", ""})
 	for _, h := range []string{"rtmp", "rtsp", "customize", "pull"} {
 		cat = append(cat, sc{"subs", h, ""})
 	}
@@ -1495,9 +1562,9 @@ func init() {
 			return nCat + 43
 		},
 		CaseTimeout: func(string) time.Duration { return 4 * time.Minute },
-		Rule: "whole-server runs on one stream name with an RTMP and an HTTP-FLV witness attached throughout and HLS, FLV recording and the stream hook on. Inputs of five kinds (RTMP publisher, RTSP publisher, customize publisher, start_rtp_pub, relay pull from a scripted stub origin) publish frames tagged with their own id. Catalogue: 5×5 holder × intruder matrix (holder accepted and publishing; 1–2 intruders arrive, try to publish, leave; holder leaves by close or kick; the intruder kind arrives again and must now be admitted), a pull attempt kept in flight by the origin while each publisher kind arrives and is then overtaken, a pull attempt kept in flight across ≥3 of lal's ticks with nobody else on the name which then attaches and must be the one input (witnesses joining get its media, stat lists it, a publisher is refused), foreign subscribers of four protocols joining/leaving/kicked plus kicks of stale, made-up and wrong-family ids; plus seeded concurrent races of 2–4 actors released by a barrier over 3 rounds. Oracles: (1) porcupine linearizability of Acquire/Release operations (call = request sent, return = outcome observed via notification, reply or connection close) against a one-register model; (2) after every foreign event the holder publishes another GOP and both witnesses' histories restricted to the holder's tag must be an exact prefix of what it handed over, complete up to the depacketiser's slack; no unit of a refused input ever reaches a witness; the holder's stream hook is not told to stop; (3) notification pairing per session id (≤1 start, ≤1 stop, stop after start, no stop without start except for pull attempts, every started session stopped once all connections are closed); (4) stat API pub/pull session id = the attached input, listed subscribers were admitted. cell = scenario × kinds.",
+		Rule:        "whole-server runs on one stream name with an RTMP and an HTTP-FLV witness attached throughout and HLS, FLV recording and the stream hook on. Inputs of five kinds (RTMP publisher, RTSP publisher, customize publisher, start_rtp_pub, relay pull from a scripted stub origin) publish frames tagged with their own id. Catalogue: 5×5 holder × intruder matrix (holder accepted and publishing; 1–2 intruders arrive, try to publish, leave; holder leaves by close or kick; the intruder kind arrives again and must now be admitted), a pull attempt kept in flight by the origin while each publisher kind arrives and is then overtaken, a pull attempt kept in flight across ≥3 of lal's ticks with nobody else on the name which then attaches and must be the one input (witnesses joining get its media, stat lists it, a publisher is refused), start_rtp_pub on a UDP / TCP port that is in use (failure reported → nothing attached, next publisher admitted), foreign subscribers of four protocols joining/leaving/kicked plus kicks of stale, made-up and wrong-family ids; plus seeded concurrent races of 2–4 actors released by a barrier over 3 rounds. Oracles: (1) porcupine linearizability of Acquire/Release operations (call = request sent, return = outcome observed via notification, reply or connection close) against a one-register model; (2) after every foreign event the holder publishes another GOP and both witnesses' histories restricted to the holder's tag must be an exact prefix of what it handed over, complete up to the depacketiser's slack; no unit of a refused input ever reaches a witness; the holder's stream hook is not told to stop; (3) notification pairing per session id (≤1 start, ≤1 stop, stop after start, no stop without start except for pull attempts, every started session stopped once all connections are closed); (4) stat API pub/pull session id = the attached input, listed subscribers were admitted. cell = scenario × kinds.",
 		Assumptions: []string{"an operation whose outcome is not observed within its bound makes the case inconclusive (never a violation)", "start_rtp_pub inputs publish no media (admission and stat only)"},
-		MinCells: 10,
+		MinCells:    10,
 		Run: func(c *fw.Ctx, i int) {
 			if i%(nCat+43) < nCat || (c.Tier == "thorough" && i < nCat*4) {
 				x := cat[i%nCat]
@@ -1508,6 +1575,8 @@ func init() {
 					c03PullRace(c, i, x.a)
 				case "pullalone":
 					c03PullAlone(c, i, x.a)
+				case "rtppub-busy":
+					c03RtpPubBusyPort(c, i, x.a == "tcp")
 				case "rtsprepeat":
 					c03RtspRepeat(c, i, x.a)
 				default:
